@@ -295,6 +295,11 @@ fn vx_host_conn(mut s: std::net::TcpStream, st: Arc<(StdMutex<HostState>, Condva
                 Ok(true) => {}
                 _ => break 'outer,
             }
+            // a host that announces `Connection: close` ends its connection after that response
+            if vx_hget(&resp.headers, "connection").iter().any(|v| v.split(',').any(|t| t.trim().eq_ignore_ascii_case("close"))) {
+                let _ = s.shutdown(std::net::Shutdown::Write);
+                break 'outer;
+            }
         }
         match s.read(&mut tmp) {
             Ok(0) | Err(_) => break,
